@@ -65,6 +65,9 @@ type preset struct {
 	// shape of the random histories (0 / nil = default)
 	NValMin, NValSpan int
 	MBPs              []uint64
+	// Cap, if > 0, scales thor.InitialMaxBlockProposers (a package variable, 101) down for this process, so that the
+	// on-chain max-block-proposers parameter can lie ABOVE the cap with a handful of validators
+	Cap uint64 `json:"cap"`
 }
 
 var presets = map[string]preset{
@@ -83,11 +86,19 @@ var presets = map[string]preset{
 	// leader groups of 8-16 members out of 18-26 candidates
 	"big": {E: 2, LowP: 2, MedP: 4, HighP: 8, Cooldown: 2, EvictThreshold: 3, EvictInterval: 4, TP: 0, Hayabusa: 0, Unit: 25_000_000,
 		NValMin: 18, NValSpan: 9, MBPs: []uint64{8, 12, 16, 10}},
+	// max-block-proposers above thor.InitialMaxBlockProposers (scaled down to 4): the 2/3 queue of the PoA -> PoS transition
+	// is 2/3 of the CONFIGURED value (9 -> 6 queued, 7 -> 5, 6 -> 4), not of the capped one (4 -> 3); the queue fills up
+	// gradually over the first transition epochs.  (No evictions here: the cap is also the eviction maxTry.)
+	"cap": {E: 2, LowP: 2, MedP: 4, HighP: 8, Cooldown: 2, EvictThreshold: 1000, EvictInterval: 4, TP: 0, Hayabusa: 0, Unit: 25_000_000,
+		NValMin: 9, NValSpan: 5, MBPs: []uint64{9, 7, 6, 9}, Cap: 4},
 	"fine": {E: 2, LowP: 2, MedP: 4, HighP: 6, Cooldown: 2, EvictThreshold: 2, EvictInterval: 2, TP: 0, Hayabusa: 0, Unit: 1},
 }
 
 func (p *preset) complete(name string) {
 	p.Name = name
+	if p.Cap > 0 {
+		thor.InitialMaxBlockProposers = p.Cap
+	}
 	p.WScale = 1
 	if p.Unit%100 != 0 {
 		if p.Unit != 1 {
@@ -1198,6 +1209,37 @@ func runExitMax(p preset, seed int64, hist int) *world {
 	return w
 }
 
+// runCapQueue (preset cap): max-block-proposers = 9 is above the scaled cap thor.InitialMaxBlockProposers = 4.  The queue
+// grows 3 -> 5 -> 6 over transition epochs: PoS must start only with 6 queued (2/3 of the configured 9), not with 3
+// (2/3 of the cap); it then activates all 6 (activation is bounded by the configured value).  Lowering the parameter
+// to 0 (= the cap, 4) afterwards stops activations while 6 > 4 are active.
+func runCapQueue(p preset, seed int64, hist int) *world {
+	w := newWorld(p, seed, 9, 2, 9, hist, "capq")
+	add := func(i int) { w.opAddValidation(w.vals[i], w.ends[i%2], p.LowP, p.MinStake+uint64(i%2)) }
+	epochs := func(n int) {
+		for i := 0; i < n*int(p.E); i++ {
+			w.nextBlock()
+		}
+	}
+	add(0)
+	add(1)
+	add(2)
+	epochs(2)
+	add(3)
+	add(4)
+	epochs(2)
+	add(5)
+	epochs(2)
+	add(6)
+	add(7)
+	w.opSetMBP(0)
+	epochs(2)
+	w.opSetMBP(9)
+	epochs(1)
+	w.drain()
+	return w
+}
+
 // runEdges: a scripted history through the corners random histories reach only sometimes: removal of the head, the tail
 // and the only element of both lists, an exit that coincides with a renewal and an activation, a validator leaving with
 // pending and exiting delegations, withdraw while queued, eviction at the threshold boundary.
@@ -1282,6 +1324,8 @@ func main() {
 		switch m {
 		case "f4":
 			add(runF4(p, *seed*7919+1, hist))
+		case "capq":
+			add(runCapQueue(p, *seed*7919+4, hist))
 		case "exitmax":
 			add(runExitMax(p, *seed*7919+3, hist))
 		case "edges":
